@@ -61,9 +61,10 @@ def op_terms(op):
         if kind in ("crash-load", "died"):
             return []
         crashed = kind == "crash"
-        cfg = "(mkCfg %s %s %s %s %s %s)" % (cq_bool(mode == "always"), cq_bool(mode == "dry"), nl(op.get("fail")),
-                                              cq_bool(crashed), nl(ob.get("ran") if crashed else []),
-                                              nl(ob.get("recorded") if crashed else []))
+        cfg = "(mkCfg %s %s %s %s %s %s %s)" % (cq_bool(mode == "always"), cq_bool(mode == "dry"), nl(op.get("fail")),
+                                                 cq_bool(crashed), nl(ob.get("ran") if crashed else []),
+                                                 nl(ob.get("recorded") if crashed else []),
+                                                 nl(ob.get("premarked") if crashed else []))
         t = "OBuild %s %d" % (cfg, op["label"])
         if crashed:
             return [(t, "ObsCrash %s" % recs_term(ob["recs"]))]
